@@ -5,7 +5,7 @@ PROPS = {
         'lean_modules': ['C05', 'C05t', 'C05i', 'C05u'],
         'engines': [('rl', 400, 20000), ('pub', 300, 5000), ('conn', 150, 3000), ('sub', 100, 2000), ('unsub', 100, 2000),
                     ('ack', 80, 800), ('empty', 1, 1), ('val', 80, 800), ('apipub', 200, 4000), ('apiconn', 100, 2000),
-                    ('inpub', 200, 4000), ('inflow', 150, 1500)],
+                    ('inpub', 200, 4000), ('inflow', 150, 1500), ('retry', 100, 800)],
         'rule': 'boundary tables (every remaining-length threshold ±2, all QoS×retain×dup, all 2^6 CONNECT option '
                 'combinations) then seeded random cases; a case is non-trivial when the implementation produced a '
                 'packet or a classified rejection; distinct = distinct case line',
@@ -14,7 +14,7 @@ PROPS = {
     },
     'C06': {
         'lean_modules': ['C06', 'C06t'],
-        'engines': [('rp', 600, 6000), ('parse', 600, 6000), ('ustr', 200, 3000), ('serve', 300, 4000)],
+        'engines': [('rp', 600, 6000), ('parse', 600, 6000), ('ustr', 200, 3000), ('serve', 300, 4000), ('bc', 150, 1500), ('servewf', 1, 1)],
         'rule': 'structured streams (valid prefix, one mutation from each malformed class of the property, trailing garbage), '
                 'boundary byte alphabet {00,01,02,7f,80,ff} (exhaustively up to 6 length bytes / 4 body bytes in the thorough tier) '
                 'and random soup; non-trivial = reached a parser or the length loop; distinct = distinct case line',
@@ -105,7 +105,7 @@ PROPS = {
     },
     'C17': {
         'lean_modules': ['C17'],
-        'engines': [('retry', 300, 2500)],
+        'engines': [('retry', 300, 2500), ('inflow', 150, 1000)],
         'rule': 'scripts of environment events (app requests before Connect / while connected / during an outage, dial results, CONNACK accepted with or without session / refused / never, peer close, inbound messages, Handle) with a per-packet fault plan (write failure, lost request, lost acknowledgement, silent) and a friendly tail; hand-written witnesses of the repaired defects first; all single- and double-fault plans over short histories in the thorough tier; non-trivial = the script reached at least one connection',
         'assumptions': ['one task of the RetryClient is one atomic model step (single task goroutine, one request outstanding at a time)',
                         'the transport either delivers a whole packet or fails the write; the broker conforms to MQTT 3.1.1 (Spec in Model/Retry: Broker)',
@@ -149,14 +149,14 @@ PROPS = {
                         'promptness ("returns promptly") is measured by the correspondence run (5 s budget per predicted return), not proved'],
     },
     'C11': {
-        'engines': [('bc', 400, 4000), ('rhandle', 1, 1)],
+        'engines': [('bc', 400, 4000), ('rhandle', 1, 1), ('servewf', 1, 1)],
         'rule': 'scripts over the base client LTS: API calls (Connect, Publish QoS 1/2, Subscribe, Unsubscribe, Ping, Disconnect) started at scripted points, acknowledgements in a scripted order (own, foreign, wrong-kind, unsolicited, SUBACK with right / wrong count), cancellation of any call, peer close, local Close, malformed packet, write refusal; the thorough tier enumerates every request kind x every step of its exchange x every cause, alone and with 1-4 other blocked calls; non-trivial = at least one call was made',
         'assumptions': ['registration of a waiter and the write of its request are one atomic step (no acknowledgement can precede the request)',
                         'goroutine scheduling and channel semantics of Go are not formalised: each blocking select is modelled by its three exits',
                         'promptness ("returns promptly") is measured by the correspondence run (5 s budget per predicted return), not proved'],
     },
     'C16': {
-        'engines': [('bc', 400, 4000), ('kareconn', 6, 60)],
+        'engines': [('bc', 400, 4000), ('kareconn', 6, 60), ('servewf', 1, 1)],
         'rule': 'scripts over the base client LTS: API calls (Connect, Publish QoS 1/2, Subscribe, Unsubscribe, Ping, Disconnect) started at scripted points, acknowledgements in a scripted order (own, foreign, wrong-kind, unsolicited, SUBACK with right / wrong count), cancellation of any call, peer close, local Close, malformed packet, write refusal; the thorough tier enumerates every request kind x every step of its exchange x every cause, alone and with 1-4 other blocked calls; non-trivial = at least one call was made',
         'assumptions': ['registration of a waiter and the write of its request are one atomic step (no acknowledgement can precede the request)',
                         'goroutine scheduling and channel semantics of Go are not formalised: each blocking select is modelled by its three exits',
